@@ -136,7 +136,7 @@ class MetricsSym:
         if fn == "median_absolute_deviation" and len(c.args) == 2:
             return fun("MAD")(conv.conv(c.args[0]), conv.conv(c.args[1]))
         if fn == "t_stat":
-            tail = kwarg(c, "tail")
+            tail = kwarg(c, "tail") or (c.args[2] if len(c.args) > 2 else None)   # by name or by position
             return fun("TStat")(conv.conv(c.args[0]), conv.conv(c.args[1]), conv.conv(tail) if tail is not None else sp.Integer(2))
         return None
 
